@@ -5,6 +5,7 @@ package harness
 import (
 	"bytes"
 	"fmt"
+	"math"
 	"sort"
 	"testing"
 
@@ -243,6 +244,9 @@ func genC19Sel(t *rapid.T) c19Sel {
 	}
 	c.Target = rapid.Int64Range(0, sum+2).Draw(t, "target")
 	c.MaxInputs = rapid.IntRange(0, 13).Draw(t, "maxin")
+	if rapid.IntRange(0, 9).Draw(t, "maxinbig") == 0 { // "no limit"
+		c.MaxInputs = rapid.SampledFrom([]int{math.MaxInt32, math.MaxInt64, math.MaxInt64 - 1, 1 << 40}).Draw(t, "maxinhuge")
+	}
 	c.MinChange = int64(rapid.IntRange(0, 4).Draw(t, "minchange"))
 	c.MinAvg = int64(rapid.IntRange(0, 30).Draw(t, "minavg"))
 	if large {
@@ -333,6 +337,16 @@ func evalC19Hist(c c19Hist, o *Obs) error {
 			cs.PushCoin(tc)
 			model = append(model, tc)
 			pushes++
+		case "pushagain":
+			// a coin object that is already in the set is pushed once more (a list, not a set: it is there twice)
+			if len(model) == 0 {
+				break
+			}
+			tc := model[int(op.C.V+op.C.C)%len(model)]
+			cs.PushCoin(tc)
+			model = append(model, tc)
+			pushes++
+			o.Class("C19:same-coin-object-twice")
 		case "pop":
 			got := cs.PopCoin()
 			if len(model) == 0 {
@@ -419,7 +433,9 @@ var kC19Hist = register(&Kind[c19Hist]{
 			c.Initial = append(c.Initial, coin())
 		}
 		for i := rapid.IntRange(1, 40).Draw(t, "nops"); i > 0; i-- {
-			switch rapid.IntRange(0, 7).Draw(t, "op") {
+			switch rapid.IntRange(0, 8).Draw(t, "op") {
+			case 8:
+				c.Ops = append(c.Ops, c19Op{Op: "pushagain", C: coinSpec{V: int64(rapid.IntRange(0, 50).Draw(t, "which"))}})
 			case 0, 1, 2:
 				c.Ops = append(c.Ops, c19Op{Op: "push", C: coin()})
 			case 3, 4:
